@@ -89,6 +89,15 @@ def gen_one(rng):
     if lk:
         for s in sc["strategies"]:
             s["listener_kwargs"] = dict(lk)
+    if rng.random() < 0.15:
+        # two consecutive lines of one market with the same publish time (e.g. prices and a definition change published in
+        # the same millisecond): both are updates in the data; the second carries no scripted actions
+        for m in sc["markets"]:
+            cands = [k for k in range(1, len(m["updates"])) if not m["updates"][k].get("acts") and not m["updates"][k].get("oacts") and not m["updates"][k - 1].get("acts") and not m["updates"][k - 1].get("oacts") and m["updates"][k - 1]["pt"] != (m["updates"][k - 2]["pt"] if k >= 2 else None)]
+            if cands and rng.random() < 0.7:
+                k = rng.choice(cands)
+                m["updates"][k]["pt"] = m["updates"][k - 1]["pt"]
+                sc["same_pt"] = True
     sc["dyadic"] = dyadic
     if rng.random() < 0.15:
         # a strategy reads the wall clock through SimulatedDateTime.real_time(); in half of these an exception leaves the
